@@ -63,7 +63,8 @@ inductive Op where
   | ins (kg rel : Name) (t : Tup)
   | del (kg rel : Name) (t : Tup)
   | save (kg : Name)
-  | restart                          -- only in sequential histories
+  | saveAll                          -- StorageEngine::save_all: flush every shard, sync the WAL, save the KG list
+  | restart                          -- clean shutdown + start-up; only in sequential histories
   deriving Repr, DecidableEq, Inhabited
 
 inductive Out where
@@ -91,7 +92,17 @@ structure ShardMem where
   buffer : List Upd := []
   deriving Repr, DecidableEq, Inhabited
 
+/-- `PersistConfig::durability_mode`: `append` writes the WAL and fsyncs (immediate), writes into the WAL's
+    `BufWriter` only (batched; reaches the file at `sync`, at a rewrite, or when the writer is dropped), or
+    skips the WAL (async)                                                   persist/mod.rs:406-421 -/
+inductive Dur where
+  | immediate | batched | async
+  deriving Repr, DecidableEq, Inhabited
+
 structure State where
+  mode : Dur := .immediate
+  walBuf : List (Name × Upd) := []                     -- entries still in the WAL BufWriter (batched mode)
+  bufDiscarded : Bool := false                         -- ghost: a WAL rewrite threw away buffered entries of *other* shards
   kgs : List (Name × Rels) := []                       -- DashMap<String, KnowledgeGraph> (live relations)
   tomb : List Name := []                               -- dropping_kgs
   metaFile : List Name := []                           -- metadata/knowledge_graphs.json
@@ -128,7 +139,21 @@ def ensureShard (st : State) (s : Name) : State :=
 
 def appendUpd (st : State) (s : Name) (u : Upd) : State :=
   let sh := (lookup s st.mem).getD {}
-  { st with wal := st.wal ++ [(s, u)], mem := put s { sh with buffer := sh.buffer ++ [u] } st.mem }
+  let mem' := put s { sh with buffer := sh.buffer ++ [u] } st.mem
+  match st.mode with
+  | .immediate => { st with wal := st.wal ++ [(s, u)], mem := mem' }
+  | .batched => { st with walBuf := st.walBuf ++ [(s, u)], mem := mem' }
+  | .async => { st with mem := mem' }
+
+/-- `PersistWal::remove_shard_entries` (wal.rs:266): the surviving entries are computed from what is *in the
+    file*; the writer is closed (its buffer is flushed into the old file) and the file is replaced by the
+    survivors — so whatever was still buffered, of any shard, is gone from the WAL -/
+def walRewrite (st : State) (s : Name) : State :=
+  { st with wal := st.wal.filter (fun e => e.1 != s), walBuf := [],
+            bufDiscarded := st.bufDiscarded || st.walBuf.any (fun e => e.1 != s) }
+
+/-- `PersistWal::sync` / dropping the writer: the buffer reaches the file -/
+def walSync (st : State) : State := { st with wal := st.wal ++ st.walBuf, walBuf := [] }
 
 /-- `flush` (persist/mod.rs:581) -/
 def flushShard (st : State) (s : Name) : State :=
@@ -137,13 +162,12 @@ def flushShard (st : State) (s : Name) : State :=
   | some sh =>
     if sh.buffer.isEmpty then st else
     let b := sh.batches ++ sh.buffer
-    { st with mem := put s { batches := b, buffer := [] } st.mem,
-              files := put (metaFile s) (s, b) st.files,
-              wal := st.wal.filter (fun e => e.1 != s) }
+    walRewrite { st with mem := put s { batches := b, buffer := [] } st.mem,
+                         files := put (metaFile s) (s, b) st.files } s
 
 /-- `delete_shard` (persist/mod.rs:622): map entry, batch files, WAL entries, and the metadata *file* -/
 def deleteShard (st : State) (s : Name) : State :=
-  { st with mem := erase s st.mem, wal := st.wal.filter (fun e => e.1 != s), files := erase (metaFile s) st.files }
+  walRewrite { st with mem := erase s st.mem, files := erase (metaFile s) st.files } s
 
 /-! ### in-memory relations -/
 def insRel (rels : Rels) (rel : Name) (t : Tup) : Rels × Out :=
@@ -177,10 +201,11 @@ where dedupNames' : List Tup → List Tup
   | [] => []
   | a :: r => if r.contains a then dedupNames' r else a :: dedupNames' r
 
-def restart (st : State) : State :=
+def restartCore (st : State) : State :=
   -- load_shards: one map entry per metadata file, named by the name *inside* the file
   let mem0 : List (Name × ShardMem) := st.files.map (fun f => (f.2.1, { batches := f.2.2, buffer := [] }))
-  let s1 : State := { kgs := [], tomb := [], metaFile := st.metaFile, mem := mem0, files := st.files, wal := st.wal,
+  let s1 : State := { mode := st.mode, bufDiscarded := st.bufDiscarded,
+                      kgs := [], tomb := [], metaFile := st.metaFile, mem := mem0, files := st.files, wal := st.wal,
                       persistedForMissing := st.persistedForMissing, staleMetaWrite := st.staleMetaWrite, n := st.n, threads := st.threads }
   -- replay_wal into buffers, then drain: flush every dirty shard (order of first appearance in the WAL)
   let s2 := st.wal.foldl (fun s e => let sh := (lookup e.1 s.mem).getD {}; { s with mem := put e.1 { sh with buffer := sh.buffer ++ [e.2] } s.mem }) s1
@@ -195,6 +220,9 @@ def restart (st : State) : State :=
   -- default KG created (and the metadata file rewritten) only if missing
   if (lookup defaultKg kgs).isSome then { s3 with kgs := kgs }
   else { s3 with kgs := kgs ++ [(defaultKg, [])], metaFile := kgNames ++ [defaultKg] }
+
+/-- clean shutdown (the WAL writer is dropped: its buffer reaches the file) followed by start-up -/
+def restart (st : State) : State := restartCore (walSync st)
 
 /-! ### the step function -/
 def step (st : State) (t : Tid) : Res :=
@@ -254,7 +282,10 @@ def step (st : State) (t : Tid) : Res :=
     -- save / restart (single step; used in sequential histories)
     | .save kg, _ =>
       if (lookup kg st.kgs).isNone then fin st .nf
-      else fin (((st.mem.map (·.1)).filter (hasPrefix kg)).foldl flushShard st) .ok
+      else fin (walSync (((st.mem.map (·.1)).filter (hasPrefix kg)).foldl flushShard st)) .ok      -- flush the KG's shards; persist.sync()
+    | .saveAll, _ =>
+      let s1 := walSync ((st.mem.map (·.1)).foldl flushShard st)
+      fin { s1 with metaFile := names s1 } .ok
     | .restart, _ => fin (restart st) .ok
     | _, _ => .skip
 
@@ -300,6 +331,9 @@ def completeSched : Nat → State → List Tid
 
 /-- first start of the engine on an empty directory: the default KG is created -/
 def fresh : State := { kgs := [(defaultKg, [])], metaFile := [defaultKg] }
+
+def initMode (mode : Dur) (progs : List (List Op)) : State :=
+  { fresh with mode := mode, n := progs.length, threads := fun t => { todo := progs.getD t [] } }
 
 def init (progs : List (List Op)) : State :=
   { fresh with n := progs.length, threads := fun t => { todo := progs.getD t [] } }
